@@ -213,11 +213,16 @@ def run_case(case):
             inter = True
             bump('interleaved')
     run = harness.execute(sp, want_taps=False)
+    if run.data is None and 'is too large. Should be between' in run.wout[2]:
+        # the write loop was aborted by the progress display: the declared number of records (objects + rows) is smaller than
+        # the number of records of a file with several logical files (one header each, one record per set)
+        vio.append({'prop': PROP, 'kind': 'multi-lf-write-aborted', 'mech': 'write-aborted:record-count',
+                    'detail': f'{nlf} logical files: write raised {run.wout[1]}: {run.wout[2][:120]}'})
     if run.data is None:
         bump('write-raised:%s:%s' % (run.wout[1], run.wout[2][:60]))
         if shared:
             bump('shared-rejected')
-        return {'evals': 1, 'violations': [], 'obs': obs, 'sigs': [f'{cls}:raised'], 'sample': {'class': cls, 'outcome': run.wout[:3]}}
+        return {'evals': 1, 'violations': vio, 'obs': obs, 'sigs': [f'{cls}:raised'], 'sample': {'class': cls, 'outcome': run.wout[:3]}}
     oracle.decode(run)
     oracle.match(run)
     oracle.check_c05(run)
